@@ -22,7 +22,44 @@ def field_of_ref(f, local, _depth=0):
     return None
 
 
+_closing_helpers = {}
+
+
+def closing_helpers(fx):
+    """{path: set(kinds)} functions that only close a root stack and are called only by functions that opened it: a clean-up extracted from its
+    opener (`finish_generator_run(.., guard_depth)`); a call of one is a close event of its caller"""
+    if id(fx) in _closing_helpers:
+        return _closing_helpers[id(fx)]
+    _closing_helpers[id(fx)] = {}
+    raw = {p: _raw_events(fx, g) for p, g in fx.fns.items() if not g.derived}
+    out = {}
+    for p, ev in raw.items():
+        g = fx.fns[p]
+        if g.closure or not ev:
+            continue
+        for kind in ("G", "S"):
+            if any(e[1] == kind and e[2] == "close" for e in ev) and not any(e[1] == kind and e[2] == "open" for e in ev):
+                callers = [q for q, h in fx.fns.items() if not h.derived and any(t[1].get("d") == p for _, t in h.calls())]
+                if callers and all(any(e[1] == kind and e[2] == "open" for e in raw.get((fx.fns[q].parent if fx.fns[q].closure else q), [])) for q in callers):
+                    bulk = all(e[3].endswith((".truncate", ".clear")) for e in ev if e[1] == kind and e[2] == "close")
+                    out.setdefault(p, {})[kind] = ".truncate" if bulk else ""
+    _closing_helpers[id(fx)] = out
+    return out
+
+
 def events(fx, f):
+    out = _raw_events(fx, f)
+    ch = closing_helpers(fx)
+    if ch:
+        for bi, t in f.calls():
+            d = t[1].get("d")
+            if d in ch and d != f.path:
+                for kind, suffix in ch[d].items():
+                    out.append((bi, kind, "close", d.split("::")[-1] + suffix, t[6]))
+    return out
+
+
+def _raw_events(fx, f):
     """list of (block, kind, role, detail, span): kind in G (env guard stack), S (call stack);
     role in open/close"""
     out = []
